@@ -324,6 +324,11 @@ func ruleDirTable(c *Ctx) {
 				names = append(names, lastFieldName(a))
 			}
 			want := []string{"root", "identifier", "configMap"}
+			if ld.Signature.Recv() != nil && len(call.Call.Args) == 1 {
+				// the loader is a method of the row: the row goes as a whole
+				c.OK("R12.2", "config.LoadDeviceConfigs/call(loadDirectory)", c.P.Pos(call.Pos()), "called on the row itself (a method of the row type reads root, identifier and map of that row)")
+				continue
+			}
 			c.Check(strings.Join(names, ",") == strings.Join(want, ","), "R12.2", "config.LoadDeviceConfigs/call(loadDirectory)", c.P.Pos(call.Pos()),
 				"called with (row.root, row.identifier, row.configMap)", "loadDirectory is called with "+strings.Join(names, ",")+", expected root,identifier,configMap of the same row")
 		}
@@ -534,7 +539,7 @@ func ruleLoadDirectoryCallback(c *Ctx) {
 				note(k, "a loaded configuration must be stored exactly once and the walk continue")
 			} else {
 				e := sets[0]
-				if e.Args[0].Op != "freevar" && !(e.Args[0].Op == "load" && e.Args[0].Args[0].Op == "freevar") && !receiverFieldIsParam(ld, cb, e.Args[0]) {
+				if e.Args[0].Op != "freevar" && !(e.Args[0].Op == "load" && e.Args[0].Args[0].Op == "freevar") && !receiverFieldIsParam(ld, cb, e.Args[0]) && !rowMapOfReceiver(ld, e.Args[0]) {
 					note(k, "entry stored into something else than the directory's map: "+e.Args[0].String())
 				} else if !strings.HasSuffix(e.Args[1].String(), ".Config.ID") {
 					note(k, "entry stored under "+e.Args[1].String()+" instead of the configuration's identifier")
@@ -658,6 +663,28 @@ func receiverFieldIsParam(host, cb *ssa.Function, t *Term) bool {
 		}
 	}
 	return false
+}
+
+// rowMapOfReceiver: the loader is a method of the row type (`(dir *dirInfo) loadDirectory()`) and t is the map field of the
+// row it was called on, reached from the callback through the captured receiver.
+func rowMapOfReceiver(host *ssa.Function, t *Term) bool {
+	if host.Signature.Recv() == nil {
+		return false
+	}
+	t = t.StripConv()
+	if t.Op != "load" || len(t.Args) != 1 || t.Args[0].Op != "fieldaddr" {
+		return false
+	}
+	if f, ok := t.Args[0].Obj.(*types.Var); !ok {
+		return false
+	} else if _, isMap := f.Type().Underlying().(*types.Map); !isMap {
+		return false
+	}
+	base := t.Args[0].Args[0]
+	if base.Op == "load" && len(base.Args) == 1 {
+		base = base.Args[0]
+	}
+	return base.Op == "freevar" || base.Op == "param"
 }
 
 // ruleReadIsParse: R12.6 a file is registered only with the configuration ParseData accepted for it: every nil-error
